@@ -421,3 +421,10 @@ Proof.
   - intros b Lb. apply Hmin. now rewrite monomials_len in Lb.
   - exact Hle.
 Qed.
+
+(* PolynomialRegression is LinearLeastSquares on the monomial terms, in one statement *)
+Theorem polyreg_is_lls_on_monomials_full xs y w d :
+  polyreg xs y w (Z.of_nat d) = lls (length xs) y w (monomials d xs) /\
+  length (monomials d xs) = S d /\
+  forall j i, (j <= d)%nat -> (i < length xs)%nat -> Xe (monomials d xs) j i == pw (vn xs i) j.
+Proof. split; [apply polyreg_is_lls_on_monomials | split; [apply monomials_len | apply monomials_Xe]]. Qed.
